@@ -64,8 +64,12 @@ def run_scripted(spec, heuristic=None, mode="dual", tol=0.25):
     pep, P, X = L.build_pep(spec)
     W = L.make_wrapper_class()
 
+    solves = [0]      # number of solve calls so far on this PEP object, all wrappers together
+
     def script(w, k):
-        duals = L.synthetic_duals(w.prob, spec["dual_seed"], k)
+        # tags differ from one solve call to the next even at unchanged positions
+        duals = L.synthetic_duals(w.prob, spec["dual_seed"], solves[0])
+        solves[0] += 1
         cons = w.prob.constraints
         assert len(cons) == len(w._list_of_solver_constraints) and all(
             a is b for a, b in zip(cons, w._list_of_solver_constraints))
@@ -84,6 +88,9 @@ def run_scripted(spec, heuristic=None, mode="dual", tol=0.25):
         w1 = W(script, verbose=0)
         pep.wrapper_name, pep.wrapper = "cvxpy", w1
         L.quiet(pep._solve_with_wrapper, w1, verbose=0, return_primal_or_dual=mode)
+        for o in w1._list_of_constraints_sent_to_solver:
+            o.eval_dual()                       # a user looks at the multipliers of the first solve
+        L.apply_modifications(pep, P, X, spec.get("modify", []))
     wrapper = W(script, verbose=0)
     pep.wrapper_name = "cvxpy"
     pep.wrapper = wrapper
@@ -154,7 +161,10 @@ def correspondence_scripted(tier, seed, corpus):
     for idx, spec in enumerate(specs):
         # every dimension-reduction configuration must expose the certificate of the FIRST solve
         heur = spec.get("heuristic", {3: "trace", 4: "logdet2"}.get(idx % 5))
-        spec = dict(spec, heuristic=heur, resolve=spec.get("resolve", idx % 6 == 5))
+        spec = dict(spec, heuristic=heur, resolve=spec.get("resolve", idx % 6 == 5 or idx % 6 == 2))
+        if spec["resolve"] and "modify" not in spec:
+            # half of the second solves are of a MODIFIED model (a metric / constraint / LMI / sample added in between)
+            spec["modify"] = L.gen_modifications(random.Random(spec["dual_seed"] + idx), spec) if idx % 6 == 2 else []
         try:
             r = run_scripted(spec, heuristic=heur)
         except Exception as e:      # the real post-solve code must run on every declared model
@@ -174,7 +184,8 @@ def correspondence_scripted(tier, seed, corpus):
             if it[0] == "LMI":
                 hist["lmi_sizes"][len(it[1])] = hist["lmi_sizes"].get(len(it[1]), 0) + 1
         if spec["resolve"]:
-            hist["second_solve_of_the_same_pep"] = hist.get("second_solve_of_the_same_pep", 0) + 1
+            key = "second_solve_of_a_modified_model" if spec.get("modify") else "second_solve_of_the_same_model"
+            hist[key] = hist.get(key, 0) + 1
         if r["n_duplicates"]:
             hist["models_with_an_object_sent_twice"] = hist.get("models_with_an_object_sent_twice", 0) + 1
         if spec.get("classes"):
@@ -286,7 +297,9 @@ def search(tier, seed):
         batch.append(L.gen_spec(rng))
     cases = []
     for idx, spec in enumerate(batch):
-        spec = dict(spec, heuristic={3: "trace", 4: "logdet2"}.get(idx % 5))
+        spec = dict(spec, heuristic={3: "trace", 4: "logdet2"}.get(idx % 5), resolve=(idx % 6 in (2, 5)))
+        if spec["resolve"]:
+            spec["modify"] = L.gen_modifications(random.Random(spec["dual_seed"] + idx), spec) if idx % 6 == 2 else []
         try:
             r = run_scripted(spec, heuristic=spec["heuristic"])
         except Exception as e:
